@@ -5,6 +5,7 @@ import (
 	"encoding/json"
 	"fmt"
 	"time"
+	c09 "verif/props/c09"
 
 	"golang.org/x/mod/sumdb/tlog"
 
@@ -403,6 +404,9 @@ func Run(r *fw.Run) {
 	// closed world
 	closedWorld(r)
 	sentinelWorld(r)
+	// provers over readers that hand out their own memory (zero-copy store, memoised answers): proofs stay
+	// correct and the reader's memory is not written to
+	c09.Aliasing(r)
 }
 
 // sentinelWorld is a second closed world built around the zero hash: base hashes {zero, a, b}, every
@@ -509,6 +513,10 @@ func Replay(r *fw.Run, raw json.RawMessage) {
 	r.Transitions.Add(1)
 	r.Execs.Add(1)
 	r.Sample(c)
+	if c.Kind == "aliasing" {
+		c09.Aliasing(r)
+		return
+	}
 	if c.Note == "honest" {
 		lg, _ := tlogx.Build(tlogx.Pattern(c.Pattern, c.Size))
 		var got []tlog.Hash
